@@ -26,7 +26,7 @@ void registerFineSchedulerQuanta() {}
 }  // namespace dispenso
 
 using namespace dispenso;
-using PTI = detail::PerPoolPerThreadInfo;
+using PTI = dispenso::detail::PerPoolPerThreadInfo;
 
 static int g_d0, g_nest, g_max_nest;
 static ThreadPool* g_pool;
@@ -51,7 +51,7 @@ struct Link {
   void operator()() const {
     ++g_nest;
     if (g_nest > g_max_nest) g_max_nest = g_nest;
-    vf_check(g_d0 + g_nest <= detail::kMaxInlineDepth,
+    vf_check(g_d0 + g_nest <= dispenso::detail::kMaxInlineDepth,
              "dispenso nested inline execution of scheduled functors beyond kMaxInlineDepth (recursive chain under overload)");
     submit<K + 1>();
     --g_nest;
@@ -62,7 +62,7 @@ struct Link<VF_CHAIN> {
   void operator()() const {
     ++g_nest;
     if (g_nest > g_max_nest) g_max_nest = g_nest;
-    vf_check(g_d0 + g_nest <= detail::kMaxInlineDepth,
+    vf_check(g_d0 + g_nest <= dispenso::detail::kMaxInlineDepth,
              "dispenso nested inline execution of scheduled functors beyond kMaxInlineDepth (recursive chain under overload)");
     --g_nest;
   }
@@ -74,7 +74,7 @@ extern "C" void vf_main() {
   moodycamel::ProducerToken* wtok = new moodycamel::ProducerToken(pool.work_);
   pk::symbolic_load(pool, VF_N);  // workRemaining_, poolLoadFactor_, ... arbitrary: includes the overloaded pool
   pk::symbolic_caller(pool, wtok, VF_N);
-  g_d0 = (int)vf_range_u32(0, (uint32_t)detail::kMaxInlineDepth);
+  g_d0 = (int)vf_range_u32(0, (uint32_t)dispenso::detail::kMaxInlineDepth);
   PTI::inlineDepth() = g_d0;
 #if VF_VIA == 1
   g_ts = new TaskSet(pool, (ssize_t)vf_range_u32(1, 8));
